@@ -41,16 +41,65 @@ pub const BOOL_PATHS: [LookupPath; 5] = [
 impl<'c, W: WorldDriver> Session<'c, W> {
     /// Everything that is checked after every step.
     pub fn post_step(&mut self) -> R {
-        self.check_shape()?;
-        self.check_rep_invariant()?;
+        // All oracle groups look at one and the same post-step state while the model is still
+        // trusted, so their failures are merged: each property gets to see "its" violation even
+        // when another group notices the same corruption too.
+        let mut fails: Vec<Fail> = Vec::new();
+        if let Err(f) = self.check_shape() {
+            fails.push(f);
+        }
         if self.cfg.events {
-            self.check_events()?;
+            if let Err(f) = self.check_events() {
+                fails.push(f);
+            }
         }
         let intensity = self.cfg.intensity;
-        self.probe_all(intensity)?;
-        self.check_registry()?;
+        if let Err(f) = self.probe_all(intensity) {
+            fails.push(f);
+        }
+        if let Err(f) = self.check_iteration() {
+            fails.push(f);
+        }
+        if let Err(f) = self.check_registry() {
+            fails.push(f);
+        }
+        if let Err(f) = self.check_rep_invariant() {
+            // latent corruption: give the behavioural oracles a full look at it
+            if fails.is_empty() {
+                let saved = self.rot;
+                if let Err(g) = self.probe_all(Intensity::Full) {
+                    fails.push(g);
+                }
+                self.rot = saved;
+            }
+            fails.push(f);
+        }
+        if !fails.is_empty() {
+            return Err(Fail::merge(fails));
+        }
         if self.sims.len() >= 2 && self.sims.iter().filter(|s| s.ops_since_split >= 3).count() >= 2 {
             self.label("diverged3");
+        }
+        Ok(())
+    }
+
+    /// Iteration oracle after every step (C06): one rotating iteration path per archetype.
+    pub fn check_iteration(&mut self) -> R {
+        for si in 0..self.sims.len() {
+            for a in 0..self.infos.len() {
+                let n = self.sims[si].archs[a].live.len();
+                if n > 48 {
+                    continue;
+                }
+                let path = IterPath::pick(self.rot.wrapping_add(a * 3).wrapping_add(si));
+                let obs = match catch(|| W::iterate(&mut self.sims[si].w, a, path, None)) {
+                    Ok(o) => o,
+                    Err(m) => return Err(self.fail(&["C06"], "iterate-panic", format!("{:?} over {} panicked: {}", path, self.infos[a].name, m))),
+                };
+                let cols: Vec<usize> = (0..self.infos[a].ncols()).collect();
+                let what = format!("{:?} over {}", path, self.infos[a].name);
+                self.judge_iteration_pub(si, &what, &[(a, cols)], &obs, None, path.reads_values())?;
+            }
         }
         Ok(())
     }
@@ -265,7 +314,8 @@ impl<'c, W: WorldDriver> Session<'c, W> {
             Ok(o) => o,
             Err(m) => {
                 let live = self.sims[si].archs[a].live.contains_key(&rec.raw);
-                return Err(self.fail(&["C01"], "lookup-panic", format!("{:?} with {} {:?} ({}) in {} panicked: {}", path, key.kind_name(), rec.raw, if live { "live" } else { "stale" }, name, m)));
+                let tags: &[&'static str] = if live && path.reads_values() { &["C01", "C02"] } else { &["C01"] };
+                return Err(self.fail(tags, "lookup-panic", format!("{:?} with {} {:?} ({}) in {} panicked: {}", path, key.kind_name(), rec.raw, if live { "live" } else { "stale" }, name, m)));
             }
         };
         // compare against the model without copying it; build the failure afterwards
@@ -277,7 +327,8 @@ impl<'c, W: WorldDriver> Session<'c, W> {
                 (Some(_), None) => Some((&["C01"], "live-rejected", format!("{:?} with {} rejected live handle {:?} of {}", path, key.kind_name(), rec.raw, name))),
                 (Some(e), Some(o)) => {
                     if path.reads_values() && o.raw != Some(rec.raw) {
-                        Some((&["C01"], "wrong-entity", format!("{:?} with {} {:?} in {} reached entity {:?}", path, key.kind_name(), rec.raw, name, o.raw)))
+                        let tags: &'static [&'static str] = if o.vals != e.vals { &["C01", "C02"] } else { &["C01"] };
+                        Some((tags, "wrong-entity", format!("{:?} with {} {:?} in {} reached entity {:?}", path, key.kind_name(), rec.raw, name, o.raw)))
                     } else if path.reads_values() && o.vals != e.vals {
                         Some((&["C02"], "wrong-values", format!("{:?} with {} {:?} in {} read stamps {:x?}, expected {:x?}", path, key.kind_name(), rec.raw, name, o.vals, e.vals)))
                     } else if path.reads_values() && o.trk != e.trk {
